@@ -585,15 +585,27 @@ package val
 // BuildPermissive: a field is converted only if that saves space, and every conversion gets a buffer of its own
 // (nil: the converted value must not share storage with another field)
 //@ func (*TupleBuilder).BuildPermissive
-//@   property C16
+//@   property C16 C15
+// the builder is well formed (one slot per field of its descriptor, as NewTupleBuilder makes it) and is empty again
+// after the build
+//@   requires tb != nil && tb.Desc != nil && len(tb.fields) >= len(tb.Desc.Types)
+//@   ensures  err == nil ==> tb.pos == 0 && tb.inlineSize == 0 && tb.outOfBandSize == 0
+//@   ensures  err == nil ==> forall j in 0..len(tb.Desc.Types): tb.fields[j] == nil
+//@   loop 1
+//@     invariant tb.Desc == old(tb.Desc) && tb.Desc != nil && len(tb.fields) >= len(tb.Desc.Types)
+//@   loop 2
+//@     invariant tb.Desc == old(tb.Desc) && tb.Desc != nil && len(tb.fields) >= len(tb.Desc.Types)
+//@   loop 3
+//@     invariant tb.Desc == old(tb.Desc) && tb.Desc != nil && len(tb.fields) >= len(tb.Desc.Types)
 //@   at call convertToOutOfBand: assert len(arg3:[]byte) == 0 && cap(arg3:[]byte) == 0
 //@   at call convertToInline: assert len(arg3:[]byte) == 0 && cap(arg3:[]byte) == 0
 
 // PutRaw copies the bytes it is given into the builder's own buffer
 //@ func (*TupleBuilder).PutRaw
 //@   property C16
-//@   trusted copies |buf| into the builder's buffer (its size bookkeeping is C15's writeRaw)
+//@   trusted copies |buf| into the builder's buffer (its size bookkeeping is C15's writeRaw); it assigns tb.fields[i], tb.pos and the size counters only
 //@   modifies *tb
+//@   ensures  tb.Desc == old(tb.Desc) && len(tb.fields) == old(len(tb.fields)) && tb.vs == old(tb.vs) && tb.tupleLengthTarget == old(tb.tupleLengthTarget)
 
 // ---- keyless tables are multisets: the cardinality cell (C27)
 
@@ -697,3 +709,9 @@ package val
 //@     invariant verif_ghost.cN == off + rangeidx
 //@     invariant verif_ghost.cAllZero
 //@     invariant cmp == 0 && err == nil
+
+// NewTupleBuilder establishes the well-formedness the build functions rely on
+//@ func NewTupleBuilder
+//@   property C15
+//@   requires desc != nil
+//@   ensures  result != nil && result.Desc == desc && len(result.fields) == len(desc.Types)
